@@ -583,3 +583,458 @@ Proof.
     [split; exact I|exact Hm|].
   exists ds, p'. auto.
 Qed.
+
+(* ================================================================ parse_tokens_in_bounds *)
+
+(* the token lies inside the buffer *)
+Definition in_buf (data : bytes) (t : token) : Prop := (tk_start t + tk_len t <= length data)%nat.
+
+Lemma in_buf_lex data : forall m s t s', at_data data s -> lex m s = Ok (t, s') -> at_data data s' /\ in_buf data t.
+Proof.
+  intros m s t s' Ha E. destruct (lex_call_facts data m s t s' Ha E) as [Ha' [_ [Hp [Hle _]]]].
+  split; [exact Ha'|]. unfold in_buf. lia.
+Qed.
+
+Lemma in_buf_empty data : forall t, in_buf data t -> in_buf data (empty_string_of t).
+Proof. unfold in_buf, empty_string_of. intros t H. cbn [tk_start tk_len]. lia. Qed.
+
+(* every Token the parser hands to an action - names, values, paths, and the `at` token of every error call - lies
+   inside the buffer the parser was given *)
+Theorem parse_tokens_in_buffer data ds : parse_tokens data = Ok ds -> Forall (tdecl_P (in_buf data)) ds.
+Proof.
+  intros E.
+  destruct (parse_tokens_ok (at_data data) (in_buf data) (in_buf_lex data) (in_buf_empty data) data (at_data_init data))
+    as [ds' [E' H]].
+  rewrite E in E'. inversion E'. subst ds'. exact H.
+Qed.
+
+(* the text of a token inside the buffer is the slice [start, start + length) and has the token's length *)
+Lemma tok_text_slice data t : tok_text data t = slice data (tk_start t) (tk_start t + tk_len t).
+Proof. unfold tok_text, slice. replace (tk_start t + tk_len t - tk_start t)%nat with (tk_len t) by lia. reflexivity. Qed.
+
+Lemma tok_text_length data t : in_buf data t -> length (tok_text data t) = tk_len t.
+Proof.
+  unfold in_buf, tok_text. intros H. rewrite firstn_length, skipn_length. lia.
+Qed.
+
+(* the byte strings an action receives *)
+Definition bitem_texts (b : bitem) : list bytes :=
+  match b with BBind n v => [n; v] | BPErr _ => [] end.
+Definition decl_texts (d : decl) : list bytes :=
+  match d with
+  | DBinding n v => [n; v]
+  | DDefault ps => ps
+  | DInclude _ p => [p]
+  | DBuild outs r ex im oo bs => r :: outs ++ ex ++ im ++ oo ++ flat_map bitem_texts bs
+  | DPool n bs => n :: flat_map bitem_texts bs
+  | DRule n bs => n :: flat_map bitem_texts bs
+  | DPErr _ => []
+  end.
+
+Definition is_slice (data x : bytes) : Prop :=
+  exists a b, (a <= b <= length data)%nat /\ x = slice data a b /\ length x = (b - a)%nat.
+
+Lemma in_buf_is_slice data t : in_buf data t -> is_slice data (tok_text data t).
+Proof.
+  intros H. exists (tk_start t), (tk_start t + tk_len t)%nat. split; [unfold in_buf in H; lia|].
+  split; [apply tok_text_slice|]. rewrite tok_text_length by exact H. lia.
+Qed.
+
+Lemma map_texts_slices data l x : Forall (in_buf data) l -> In x (map (tok_text data) l) -> is_slice data x.
+Proof.
+  intros H Hin. apply in_map_iff in Hin. destruct Hin as [t [<- Ht]]. apply in_buf_is_slice.
+  rewrite Forall_forall in H. apply H. exact Ht.
+Qed.
+
+Lemma bitems_texts_slices data bs x : Forall (tbitem_P (in_buf data)) bs ->
+  In x (flat_map bitem_texts (map (bitem_of data) bs)) -> is_slice data x.
+Proof.
+  induction bs as [|b bs IH]; intros H Hin; [contradiction|].
+  inversion H as [|b' bs' Hb Hbs]; subst. cbn [map flat_map] in Hin. apply in_app_or in Hin. destruct Hin as [Hin|Hin].
+  - destruct b as [n v|c a]; cbn in Hin; [|contradiction]. destruct Hb as [Hn Hv].
+    destruct Hin as [<-|[<-|[]]]; apply in_buf_is_slice; assumption.
+  - apply IH; assumption.
+Qed.
+
+Lemma decl_texts_slices data td x : tdecl_P (in_buf data) td -> In x (decl_texts (decl_of data td)) -> is_slice data x.
+Proof.
+  intros H Hin. destruct td as [n v|ps|i p|outs r ex im oo bs|n bs|n bs|c a]; cbn [decl_of decl_texts tdecl_P] in *.
+  - destruct H as [Hn Hv]. destruct Hin as [<-|[<-|[]]]; apply in_buf_is_slice; assumption.
+  - eapply map_texts_slices; [|exact Hin]; assumption.
+  - destruct Hin as [<-|[]]. apply in_buf_is_slice. exact H.
+  - destruct H as [Ho [Hr [He [Hi [Hq Hb]]]]]. destruct Hin as [<-|Hin]; [apply in_buf_is_slice; exact Hr|].
+    apply in_app_or in Hin. destruct Hin as [Hin|Hin]; [eapply map_texts_slices; [|exact Hin]; assumption|].
+    apply in_app_or in Hin. destruct Hin as [Hin|Hin]; [eapply map_texts_slices; [|exact Hin]; assumption|].
+    apply in_app_or in Hin. destruct Hin as [Hin|Hin]; [eapply map_texts_slices; [|exact Hin]; assumption|].
+    apply in_app_or in Hin. destruct Hin as [Hin|Hin]; [eapply map_texts_slices; [|exact Hin]; assumption|].
+    eapply bitems_texts_slices; eassumption.
+  - destruct H as [Hn Hb]. destruct Hin as [<-|Hin]; [apply in_buf_is_slice; exact Hn|].
+    eapply bitems_texts_slices; eassumption.
+  - destruct H as [Hn Hb]. destruct Hin as [<-|Hin]; [apply in_buf_is_slice; exact Hn|].
+    eapply bitems_texts_slices; eassumption.
+  - contradiction.
+Qed.
+
+(* parse_tokens_in_bounds: every token text handed to the actions (what NinjaEval's loader model receives) is a
+   slice data[a, b) of the input, a <= b <= length data, of length b - a *)
+Theorem parse_tokens_in_bounds data ds d x : parse data = Ok ds -> In d ds -> In x (decl_texts d) -> is_slice data x.
+Proof.
+  unfold parse. intros E Hd Hx. destruct (parse_tokens data) as [tds|] eqn:Et; [|discriminate].
+  cbn [bind] in E. inversion E. subst ds. apply in_map_iff in Hd. destruct Hd as [td [<- Htd]].
+  pose proof (parse_tokens_in_buffer data tds Et) as H. rewrite Forall_forall in H.
+  eapply decl_texts_slices; [apply H; exact Htd|exact Hx].
+Qed.
+
+(* ================================================================ the recovery rule: skipPastEOL *)
+
+(* lexer.lex(tok) in mode m, again while the token is a Comment: from lexer state s to token t, lexer state s' *)
+Inductive lex_past_comments (m : mode) : lstate -> token -> lstate -> Prop :=
+| lpc_token s t s' : lex m s = Ok (t, s') -> tk_kind t <> TkComment -> lex_past_comments m s t s'
+| lpc_comment s t s1 t' s' : lex m s = Ok (t, s1) -> tk_kind t = TkComment -> lex_past_comments m s1 t' s' ->
+    lex_past_comments m s t' s'.
+
+(* while the current token is neither Newline nor EndOfFile: lexer.lex(tok) in mode m (comments are tokens here) *)
+Inductive lex_to_eol (m : mode) : token -> lstate -> token -> lstate -> Prop :=
+| lte_stop t s : is_eol (tk_kind t) -> lex_to_eol m t s t s
+| lte_step t s t1 s1 t' s' : ~ is_eol (tk_kind t) -> lex m s = Ok (t1, s1) -> lex_to_eol m t1 s1 t' s' ->
+    lex_to_eol m t s t' s'.
+
+Lemma next_loop_rel fuel : forall m s t s', next_loop fuel m s = Ok (t, s') -> lex_past_comments m s t s'.
+Proof.
+  induction fuel as [|f IH]; intros m s t s' E; [discriminate|].
+  cbn [next_loop] in E. destruct (lex m s) as [[t1 s1]|] eqn:El; [|discriminate].
+  destruct (kind_eqb (tk_kind t1) TkComment) eqn:K.
+  - apply kind_eqb_eq in K. eapply lpc_comment; [exact El|exact K|]. apply IH. exact E.
+  - apply kind_eqb_neq in K. inversion E. subst. apply lpc_token; assumption.
+Qed.
+
+Lemma skip_loop_rel fuel : forall m t s t' s', skip_loop fuel m t s = Ok (t', s') -> lex_to_eol m t s t' s'.
+Proof.
+  induction fuel as [|f IH]; intros m t s t' s' E; [discriminate|].
+  cbn [skip_loop] in E. destruct (kind_eqb (tk_kind t) TkNewline || kind_eqb (tk_kind t) TkEndOfFile) eqn:K.
+  - apply eol_test in K. inversion E. subst. apply lte_stop. exact K.
+  - assert (Hn : ~ is_eol (tk_kind t)) by (intros H; apply eol_test in H; congruence).
+    destruct (lex m s) as [[t1 s1]|] eqn:El; [|discriminate].
+    eapply lte_step; [exact Hn|exact El|]. apply IH. exact E.
+Qed.
+
+Lemma next_rel p p' : next p = Ok p' ->
+  lex_past_comments (p_mode p) (p_lex p) (p_tok p') (p_lex p') /\ p_mode p' = p_mode p.
+Proof.
+  unfold next, get_next. intros E.
+  destruct (next_loop (S (length (l_rest (p_lex p)))) (p_mode p) (p_lex p)) as [[t s']|] eqn:En; [|discriminate].
+  cbn [bind fst snd] in E. inversion E. subst p'. cbn [p_tok p_lex p_mode]. split; [|reflexivity].
+  eapply next_loop_rel. exact En.
+Qed.
+
+(* skipPastEOL: the tokens up to the next Newline (or EndOfFile) are dropped, lexed in the CURRENT mode and with
+   comments as ordinary tokens; then that Newline is consumed: the new current token is the first one behind it
+   that is not a comment.  The mode is unchanged. *)
+Theorem skip_past_eol_rule p p' : skip_past_eol p = Ok p' ->
+  exists t s, lex_to_eol (p_mode p) (p_tok p) (p_lex p) t s /\
+              lex_past_comments (p_mode p) s (p_tok p') (p_lex p') /\ p_mode p' = p_mode p.
+Proof.
+  unfold skip_past_eol. intros E.
+  destruct (skip_loop (S (S (length (l_rest (p_lex p))))) (p_mode p) (p_tok p) (p_lex p)) as [[t s]|] eqn:Es; [|discriminate].
+  cbn [bind fst snd] in E. apply next_rel in E. cbn [p_mode p_lex] in E. destruct E as [E1 E2].
+  exists t, s. split; [eapply skip_loop_rel; exact Es|]. split; assumption.
+Qed.
+
+(* both relations are functional, so with [skip_past_eol_total] the rule determines the state after recovery *)
+Lemma lex_past_comments_det m s t1 s1 : lex_past_comments m s t1 s1 ->
+  forall t2 s2, lex_past_comments m s t2 s2 -> t1 = t2 /\ s1 = s2.
+Proof.
+  induction 1 as [s t s' E K|s t sm t' s' E K H IH]; intros t2 s2 H2.
+  - inversion H2 as [s0 t0 s0' E0 K0|s0 t0 sm0 t0' s0' E0 K0 H0]; subst; rewrite E in E0; inversion E0; subst.
+    + split; reflexivity.
+    + contradiction.
+  - inversion H2 as [s0 t0 s0' E0 K0|s0 t0 sm0 t0' s0' E0 K0 H0]; subst; rewrite E in E0; inversion E0; subst.
+    + contradiction.
+    + apply IH. exact H0.
+Qed.
+
+Lemma lex_to_eol_det m t s t1 s1 : lex_to_eol m t s t1 s1 ->
+  forall t2 s2, lex_to_eol m t s t2 s2 -> t1 = t2 /\ s1 = s2.
+Proof.
+  induction 1 as [t s K|t s ta sa t' s' K E H IH]; intros t2 s2 H2.
+  - inversion H2 as [t0 s0 K0|t0 s0 tb sb t0' s0' K0 E0 H0]; subst; [split; reflexivity|contradiction].
+  - inversion H2 as [t0 s0 K0|t0 s0 tb sb t0' s0' K0 E0 H0]; subst; [contradiction|].
+    rewrite E in E0. inversion E0. subst. apply IH. exact H0.
+Qed.
+
+Theorem skip_past_eol_exact p t s t' s' :
+  lex_to_eol (p_mode p) (p_tok p) (p_lex p) t s -> lex_past_comments (p_mode p) s t' s' ->
+  skip_past_eol p = Ok (mkP t' s' (p_mode p)).
+Proof.
+  intros H1 H2. destruct (skip_past_eol_total p) as [p' E]. rewrite E.
+  destruct (skip_past_eol_rule p p' E) as [ta [sa [Ha [Hb Hm]]]].
+  destruct (lex_to_eol_det _ _ _ _ _ H1 _ _ Ha) as [-> ->].
+  destruct (lex_past_comments_det _ _ _ _ H2 _ _ Hb) as [Ht Hs].
+  destruct p' as [pt pl pm]. cbn [p_tok p_lex p_mode] in *. subst. reflexivity.
+Qed.
+
+(* ================================================================ parse_error_or_decl *)
+
+Lemma next_mode p p' : next p = Ok p' -> p_mode p' = p_mode p.
+Proof. intros E. apply next_rel in E. apply E. Qed.
+
+Lemma fail_skip_inv {X : Type} (mk : N -> token -> X) c p x p' :
+  fail_skip mk c p = Ok (x, p') -> x = mk c (p_tok p) /\ skip_past_eol p = Ok p'.
+Proof.
+  unfold fail_skip. destruct (skip_past_eol p) as [p1|]; [|discriminate]. cbn [bind]. intros E. inversion E. auto.
+Qed.
+
+(* take apart a hypothesis of the form (do x <- r; k) = Ok _ / (if c then _ else _) = Ok _ *)
+Ltac open_do H :=
+  match type of H with
+  | bind ?r _ = Ok _ => let E := fresh "E" in destruct r eqn:E; cbn [bind] in H; [|discriminate H]
+  | (if ?c then _ else _) = Ok _ => let K := fresh "K" in destruct c eqn:K
+  | (let _ := _ in _) = Ok _ => cbv zeta in H
+  end.
+
+(* the state at which an error was raised: current token = the `at` token, lexing mode None *)
+Definition raised_at (pe : pstate) (a : token) : Prop := p_tok pe = a /\ p_mode pe = MNone.
+
+(* a binding that fails reports ONE error and recovers by skipPastEOL from the offending token, in mode None *)
+Theorem binding_error_recovery p c a p' : parse_binding_internal p = Ok (BRErr c a, p') ->
+  exists pe, raised_at pe a /\ skip_past_eol pe = Ok p'.
+Proof.
+  unfold parse_binding_internal. intros H.
+  open_do H. { apply fail_skip_inv in H. destruct H as [Hx Hs]. inversion Hx. subst. eexists. split; [|exact Hs]. split; reflexivity. }
+  open_do H. open_do H.
+  { apply fail_skip_inv in H. destruct H as [Hx Hs]. inversion Hx. subst. eexists. split; [|exact Hs]. split; reflexivity. }
+  open_do H. cbv zeta in H. open_do H. { open_do H. discriminate H. }
+  open_do H. { apply fail_skip_inv in H. destruct H as [Hx Hs]. inversion Hx. subst. eexists. split; [|exact Hs]. split; reflexivity. }
+  open_do H. open_do H. { open_do H. discriminate H. }
+  apply fail_skip_inv in H. destruct H as [Hx Hs]. inversion Hx. subst. eexists. split; [|exact Hs]. split; [reflexivity|].
+  apply next_mode in E1. rewrite E1. reflexivity.
+Qed.
+
+Lemma binding_decl_recovery p c a p' : parse_binding_decl p = Ok (TDPErr c a, p') ->
+  exists pe, raised_at pe a /\ skip_past_eol pe = Ok p'.
+Proof.
+  unfold parse_binding_decl. intros H. destruct (parse_binding_internal p) as [[r p1]|] eqn:E; [|discriminate].
+  cbn [bind fst snd] in H. destruct r as [n v|c0 a0]; cbn [tdecl_of_bres] in H; [discriminate|]. inversion H. subst.
+  eapply binding_error_recovery. exact E.
+Qed.
+
+Lemma default_decl_recovery p c a p' : parse_default_decl p = Ok (TDPErr c a, p') ->
+  exists pe, raised_at pe a /\ skip_past_eol pe = Ok p'.
+Proof.
+  unfold parse_default_decl. intros H. open_do H.
+  match type of H with bind ?r _ = _ => destruct r as [[l pr]|] eqn:Er; [|discriminate] end.
+  cbn [bind fst snd] in H. destruct l as [|t0 l].
+  - apply fail_skip_inv in H. destruct H as [Hx Hs]. inversion Hx. subst. eexists. split; [|exact Hs]. split; reflexivity.
+  - open_do H. { open_do H. discriminate H. }
+    apply fail_skip_inv in H. destruct H as [Hx Hs]. inversion Hx. subst. eexists. split; [|exact Hs]. split; reflexivity.
+Qed.
+
+Lemma include_decl_recovery p c a p' : parse_include_decl p = Ok (TDPErr c a, p') ->
+  exists pe, raised_at pe a /\ skip_past_eol pe = Ok p'.
+Proof.
+  unfold parse_include_decl. intros H. cbv zeta in H. open_do H. open_do H.
+  { apply fail_skip_inv in H. destruct H as [Hx Hs]. inversion Hx. subst. eexists. split; [|exact Hs]. split; reflexivity. }
+  open_do H. open_do H. { open_do H. discriminate H. }
+  apply fail_skip_inv in H. destruct H as [Hx Hs]. inversion Hx. subst. eexists. split; [|exact Hs]. split; [reflexivity|].
+  apply next_mode in E0. rewrite E0. reflexivity.
+Qed.
+
+(* the recovery of a failed build / pool / rule specifier: skipPastEOL, again while the line that follows is indented *)
+Inductive skip_lines : pstate -> pstate -> Prop :=
+| sl_last p p1 : skip_past_eol p = Ok p1 -> cur_kind p1 <> TkIndentation -> skip_lines p p1
+| sl_more p p1 p' : skip_past_eol p = Ok p1 -> cur_kind p1 = TkIndentation -> skip_lines p1 p' -> skip_lines p p'.
+
+Lemma fail_loop_rel fuel : forall p p', fail_loop fuel p = Ok p' -> skip_lines p p'.
+Proof.
+  induction fuel as [|f IH]; intros p p' H; [discriminate|].
+  cbn [fail_loop] in H. destruct (skip_past_eol p) as [p1|] eqn:E; [|discriminate]. cbn [bind] in H.
+  destruct (at_kind TkIndentation p1) eqn:K.
+  - apply at_kind_true in K. eapply sl_more; [exact E|exact K|]. apply IH. exact H.
+  - apply at_kind_false in K. inversion H. subst. apply sl_last; assumption.
+Qed.
+
+Lemma build_specifier_error p c a p1 : parse_build_specifier p = Ok (SErr c a, p1) -> raised_at p1 a.
+Proof.
+  unfold parse_build_specifier. intros H. open_do H. open_do H. { inversion H. split; reflexivity. }
+  match type of H with bind ?r _ = _ => destruct r as [[outs p2]|] eqn:Eo; [|discriminate] end.
+  cbn [bind fst snd] in H. open_do H. { inversion H. split; reflexivity. }
+  open_do H. cbv zeta in H. open_do H. { inversion H. split; reflexivity. }
+  open_do H.
+  match type of H with bind ?r _ = _ => destruct r as [[ex p6]|] eqn:Ee; [|discriminate] end. cbn [bind fst snd] in H.
+  match type of H with bind ?r _ = _ => destruct r as [[im p7]|] eqn:Ei; [|discriminate] end. cbn [bind fst snd] in H.
+  match type of H with bind ?r _ = _ => destruct r as [[oo p8]|] eqn:Eq; [|discriminate] end. cbn [bind fst snd] in H.
+  open_do H. { open_do H. discriminate H. }
+  inversion H. split; reflexivity.
+Qed.
+
+Lemma name_specifier_error mk code p c a p1 : (forall n c a, mk n <> SErr c a) ->
+  parse_name_specifier mk code p = Ok (SErr c a, p1) -> raised_at p1 a.
+Proof.
+  unfold parse_name_specifier. intros Hmk H. open_do H. cbv zeta in H. open_do H. { inversion H. split; reflexivity. }
+  open_do H. open_do H.
+  - open_do H. inversion H. exfalso. eapply Hmk. eassumption.
+  - inversion H. subst. split; [reflexivity|]. apply next_mode in E0. rewrite E0. reflexivity.
+Qed.
+
+Lemma block_decl_recovery p c a p' : parse_block_decl p = Ok (TDPErr c a, p') ->
+  exists pe, raised_at pe a /\ skip_lines pe p'.
+Proof.
+  unfold parse_block_decl. intros H.
+  match type of H with bind ?r _ = _ => destruct r as [[sr p1]|] eqn:Es; [|discriminate] end. cbn [bind fst snd] in H.
+  destruct sr as [rule outs ex im oo|n|n|c0 a0]; try (open_do H; discriminate H).
+  open_do H. inversion H. subst. exists p1. split; [|eapply fail_loop_rel; eassumption].
+  destruct (at_kind TkKWBuild p); [eapply build_specifier_error; exact Es|].
+  destruct (at_kind TkKWPool p); eapply name_specifier_error; try exact Es; intros; discriminate.
+Qed.
+
+Definition is_block_kw (k : kind) : bool :=
+  match k with TkKWBuild | TkKWRule | TkKWPool => true | _ => false end.
+
+(* parse_error_or_decl: no statement is dropped silently.  One parseDecl call on a blank line (current token
+   Newline) makes no action call and just consumes the Newline; on ANY other token it makes exactly one top-level
+   call: a declaration (a build / pool / rule block carries its indented lines, each a binding or an error) or an
+   error.  After a top-level error the parser has recovered from the state [pe] at which the error was raised (current
+   token = the token the error points at, lexing mode None) by exactly skipPastEOL ([skip_past_eol_rule]) - for a
+   failed build / pool / rule specifier: skipPastEOL repeated while the following line is indented. *)
+Theorem parse_error_or_decl p ds p' : p_mode p = MNone -> parse_decl p = Ok (ds, p') ->
+  (cur_kind p = TkNewline /\ ds = [] /\ next p = Ok p') \/
+  (cur_kind p <> TkNewline /\ exists d, ds = [d] /\
+     forall c a, d = TDPErr c a ->
+       exists pe, raised_at pe a /\
+         if is_block_kw (cur_kind p) then skip_lines pe p' else skip_past_eol pe = Ok p').
+Proof.
+  intros Hm H. unfold parse_decl in H.
+  destruct (cur_kind p) eqn:K;
+    try (match type of H with bind ?r _ = _ => destruct r as [[d p1]|] eqn:Er; [|discriminate] end;
+         cbn [bind fst snd] in H; inversion H; subst; right; split; [discriminate|]; exists d; split; [reflexivity|];
+         intros c a ->; cbn [is_block_kw];
+         first [ eapply block_decl_recovery; exact Er
+               | eapply default_decl_recovery; exact Er
+               | eapply include_decl_recovery; exact Er
+               | eapply binding_decl_recovery; exact Er
+               | apply fail_skip_inv in Er; destruct Er as [Hx Hs]; inversion Hx; subst; exists p; split; [split; [reflexivity|exact Hm]|exact Hs] ]).
+  left. destruct (next p) as [p1|] eqn:En; [|discriminate]. cbn [bind] in H. inversion H. subst. auto.
+Qed.
+
+(* the same for the indented lines of a block: a blank one is skipped, ANY other yields exactly one item - the binding
+   or the error of parseBindingInternal (which recovers by skipPastEOL: [binding_error_recovery]) *)
+Theorem block_line_item f p l p' : block_loop (S f) p = Ok (l, p') -> cur_kind p = TkIndentation ->
+  exists p1, next (set_mode MIdentifierSpecific p) = Ok p1 /\
+    ((cur_kind p1 = TkNewline /\ exists p2, next (set_mode MNone p1) = Ok p2 /\ block_loop f p2 = Ok (l, p')) \/
+     (cur_kind p1 <> TkNewline /\ exists r p2 l', parse_binding_internal p1 = Ok (r, p2) /\
+        l = tbitem_of_bres r :: l' /\ block_loop f p2 = Ok (l', p'))).
+Proof.
+  intros H K. cbn [block_loop] in H. apply at_kind_true in K. rewrite K in H.
+  destruct (next (set_mode MIdentifierSpecific p)) as [p1|] eqn:E1; [|discriminate]. cbn [bind] in H.
+  exists p1. split; [reflexivity|]. destruct (at_kind TkNewline p1) eqn:K1.
+  - apply at_kind_true in K1. left. split; [exact K1|].
+    destruct (next (set_mode MNone p1)) as [p2|] eqn:E2; [|discriminate]. cbn [bind] in H. exists p2. auto.
+  - apply at_kind_false in K1. right. split; [exact K1|].
+    destruct (parse_binding_internal p1) as [[r p2]|] eqn:E2; [|discriminate]. cbn [bind fst snd] in H.
+    destruct (block_loop f p2) as [[l' p3]|] eqn:E3; [|discriminate]. cbn [bind fst snd] in H. inversion H. subst.
+    exists r, p2, l'. auto.
+Qed.
+
+(* a block ends at the first line that is not indented *)
+Theorem block_loop_stop f p : cur_kind p <> TkIndentation -> block_loop (S f) p = Ok ([], p).
+Proof. intros K. cbn [block_loop]. apply at_kind_false in K. rewrite K. reflexivity. Qed.
+
+(* ================================================================ parse_load_total *)
+
+Lemma parse_files_total raw : exists fs, parse_files raw = Ok fs /\ map fst fs = map fst raw.
+Proof.
+  induction raw as [|[path data] r IH].
+  - exists []. split; reflexivity.
+  - cbn [parse_files]. destruct (parse_total data) as [ds E]. rewrite E. cbn [bind].
+    destruct IH as [fs [E' Hk]]. rewrite E'. cbn [bind]. exists ((path, ds) :: fs). split; [reflexivity|].
+    cbn [map fst]. rewrite Hk. reflexivity.
+Qed.
+
+(* Parser + loader: for ANY byte strings as files (any paths, any working directory, any main file name), with
+   fuel 64 (the include bound of the code, enterFile) or more, loading the parsed main file never runs out of fuel:
+   neither the parser (every file of the map), nor the include / subninja recursion (bounded by the depth and the
+   recursive-include guards of the loader), nor a rule-variable expansion *)
+Theorem parse_load_total fuel wd raw main : (max_include_depth <= fuel)%nat ->
+  exists m, parse_load fuel wd raw main = Ok m /\ has_out_of_fuel (mf_errors m) = false.
+Proof.
+  intros Hf. unfold parse_load. destruct (parse_files_total raw) as [fs [E _]]. rewrite E. cbn [bind].
+  eexists. split; [reflexivity|]. apply eval_total. exact Hf.
+Qed.
+
+(* ================================================================ non-vacuity examples
+   (the manifests of /repo/tests/Ninja/Parser are in Parse/NinjaParseProofsEx.v) *)
+
+(* pool = bar \n x = $ \n 1 # c \n build a: cc b \n   y \n   z = 2 \n *)
+Definition ex_src : bytes :=
+  [112; 111; 111; 108; 32; 61; 32; 98; 97; 114; 10; 120; 32; 61; 32; 36; 10; 32; 49; 32; 35; 32; 99; 10;
+   98; 117; 105; 108; 100; 32; 97; 58; 32; 99; 99; 32; 98; 10; 32; 32; 121; 10; 32; 32; 122; 32; 61; 32; 50; 10].
+
+(* parse_total: a failed pool specifier (the keyword pool is not a variable name), a binding whose value starts behind
+   a line continuation and keeps its "# c", a build block with a bad line (error 3) and a binding *)
+Example ex_parse :
+  parse ex_src = Ok [DPErr 11; DBinding [120] [49; 32; 35; 32; 99];
+                     DBuild [[97]] [99; 99] [[98]] [] [] [BPErr 3; BBind [122] [50]]].
+Proof. vm_compute. reflexivity. Qed.
+
+(* parse_tokens_in_buffer: the error points at the '=' (offset 5), the value of x is the 5 bytes from offset 18 *)
+Example ex_parse_tokens : exists rest,
+  parse_tokens ex_src = Ok (TDPErr 11 (mkTok TkEquals 5 1 1 5) ::
+                            TDBinding (mkTok TkIdentifier 11 1 2 0) (mkTok TkString 18 5 3 1) :: rest).
+Proof. eexists. vm_compute. reflexivity. Qed.
+
+(* parse_tokens_in_bounds: its hypotheses are met, and its conclusion is the slice [18, 23) *)
+Example ex_in_bounds : is_slice ex_src [49; 32; 35; 32; 99].
+Proof.
+  eapply (parse_tokens_in_bounds ex_src _ (DBinding [120] [49; 32; 35; 32; 99])); [exact ex_parse| |].
+  - right. left. reflexivity.
+  - right. left. reflexivity.
+Qed.
+
+Example ex_in_bounds_witness : [49; 32; 35; 32; 99] = slice ex_src 18 23.
+Proof. reflexivity. Qed.
+
+(* parse_error_or_decl / skip_past_eol_rule: the first parseDecl call reports error 11 at the '=' and recovers to
+   the identifier x at the start of the next line; the lexing mode is None before and after *)
+Example ex_error_recovery : exists p ds p',
+  get_next MNone (init ex_src) = Ok p /\ p_mode p = MNone /\ cur_kind p = TkKWPool /\
+  parse_decl p = Ok (ds, p') /\ ds = [TDPErr 11 (mkTok TkEquals 5 1 1 5)] /\
+  p_tok p' = mkTok TkIdentifier 11 1 2 0 /\ p_mode p' = MNone.
+Proof.
+  eexists. eexists. eexists. split; [vm_compute; reflexivity|]. split; [reflexivity|]. split; [reflexivity|].
+  split; [vm_compute; reflexivity|]. split; [reflexivity|]. split; reflexivity.
+Qed.
+
+(* skipPastEOL from the '=' of the first line, in mode None: "bar" and the Newline are dropped *)
+Example ex_skip : exists p', 
+  skip_past_eol (mkP (mkTok TkEquals 5 1 1 5) (mkL (skipn 6 ex_src) 6 1 6) MNone) = Ok p' /\
+  p_tok p' = mkTok TkIdentifier 11 1 2 0.
+Proof. eexists. split; [vm_compute; reflexivity|reflexivity]. Qed.
+
+(* parse_load_total: two files as bytes; /w/build.ninja = rule cc (command = cc $in -o $out), build a.o: cc a.c,
+   include inc.ninja, build all: phony a.o $x;  /w/inc.ninja = x = b.o.  Parsed and loaded by the models: no error,
+   the command of a.o is "cc a.c -o a.o", the inputs of all are a.o and (through the included binding) b.o *)
+Definition ex_main : bytes :=
+  [114; 117; 108; 101; 32; 99; 99; 10; 32; 32; 99; 111; 109; 109; 97; 110; 100; 32; 61; 32; 99; 99; 32; 36; 105; 110; 32;
+   45; 111; 32; 36; 111; 117; 116; 10; 98; 117; 105; 108; 100; 32; 97; 46; 111; 58; 32; 99; 99; 32; 97; 46; 99; 10;
+   105; 110; 99; 108; 117; 100; 101; 32; 105; 110; 99; 46; 110; 105; 110; 106; 97; 10;
+   98; 117; 105; 108; 100; 32; 97; 108; 108; 58; 32; 112; 104; 111; 110; 121; 32; 97; 46; 111; 32; 36; 120; 10].
+Definition ex_inc : bytes := [120; 32; 61; 32; 98; 46; 111; 10].
+Definition ex_raw : raw_files :=
+  [([47; 119; 47; 98; 117; 105; 108; 100; 46; 110; 105; 110; 106; 97], ex_main);
+   ([47; 119; 47; 105; 110; 99; 46; 110; 105; 110; 106; 97], ex_inc)].
+
+Example ex_parse_load :
+  (do m <- parse_load 64 [47; 119] ex_raw [98; 117; 105; 108; 100; 46; 110; 105; 110; 106; 97];
+   Ok (mf_loaded m, map c_command (mf_commands m), map (fun c => map n_screen (c_explicit c)) (mf_commands m), mf_errors m))
+  = Ok (true, [[99; 99; 32; 97; 46; 99; 32; 45; 111; 32; 97; 46; 111]; []],
+        [[[97; 46; 99]]; [[97; 46; 111]; [98; 46; 111]]], []).
+Proof. vm_compute. reflexivity. Qed.
+
+(* a file that includes itself: the parser and the loader's recursive-include guard terminate, error reported *)
+Example ex_self_include :
+  (do m <- parse_load 64 [47; 119]
+             [([47; 119; 47; 98; 117; 105; 108; 100; 46; 110; 105; 110; 106; 97],
+               [105; 110; 99; 108; 117; 100; 101; 32; 98; 117; 105; 108; 100; 46; 110; 105; 110; 106; 97; 10])]
+             [98; 117; 105; 108; 100; 46; 110; 105; 110; 106; 97];
+   Ok (mf_errors m)) = Ok [ERecursiveInclude].
+Proof. vm_compute. reflexivity. Qed.
